@@ -633,11 +633,21 @@ class Builder:
                     if pt.get("k") in ("wild", "bind") and specific:
                         old = self.excl.get(scrut_here)
                         self.excl[scrut_here] = set(old or ()) | specific
+                        # `other => f(other)`: the binding holds what the scrutinee holds
+                        bn = pt["name"] if pt.get("k") == "bind" and pt.get("name") not in self.assigned else None
+                        old_b = self.excl.get(bn) if bn else None
+                        if bn:
+                            self.excl[bn] = set(self.excl[scrut_here])
                         self.build(x, s, e, fn_end, fname)
                         if old is None:
                             del self.excl[scrut_here]
                         else:
                             self.excl[scrut_here] = old
+                        if bn:
+                            if old_b is None:
+                                self.excl.pop(bn, None)
+                            else:
+                                self.excl[bn] = old_b
                         continue
                     # `Some(inner)`: what is excluded for the payload
                     subs = pt.get("subs") or []
@@ -692,20 +702,52 @@ class Builder:
             it_e = info.get("e")
             while isinstance(it_e, dict) and it_e.get("k") == "mcall" and it_e["name"] in ("iter", "into_iter", "enumerate") and not it_e["args"]:
                 it_e = H.peel_ref(it_e["recv"])
+            if isinstance(it_e, dict) and it_e.get("k") == "local" and it_e.get("name") not in self.assigned:
+                # `let table = [..]; for x in table`
+                inits = [n for n in walk((self.f.fns.get(fname) or {}).get("hir") or {})
+                         if n.get("k") == "stmt_let" and n["pat"].get("k") == "bind" and n["pat"].get("name") == it_e["name"]]
+                if len(inits) == 1 and isinstance(inits[0].get("init"), dict) and H.peel_ref(inits[0]["init"]).get("k") == "array":
+                    it_e = H.peel_ref(inits[0]["init"])
             if isinstance(it_e, dict) and it_e.get("k") == "array":
                 fixed_n = len(it_e.get("es") or [])
             if fixed_n:
-                # a loop over an array literal runs exactly that many times
+                # a loop over an array literal runs exactly that many times; loop variables bound to string literals of the
+                # element (`for (kw, v) in [(" LIMIT ", a), (" OFFSET ", b)]`) carry them
                 old = self.bind.get(idx) if idx else None
+                lpat = info.get("pat") if isinstance(info.get("pat"), dict) else None
+                if lpat is not None and lpat.get("k") == "variant" and len(lpat.get("subs") or []) == 1:
+                    lpat = lpat["subs"][0]          # the desugared `Some(pat)` arm of the for loop
+                if lpat is not None and idx is not None and lpat.get("k") == "tuple" and len(lpat["subs"]) == 2:
+                    lpat = lpat["subs"][1]
+                saved_b = dict(self.bind)
                 cur = s
                 for i_ in range(fixed_n):
                     nxt = e if i_ == fixed_n - 1 else a.state()
                     if idx:
                         self.bind[idx] = "#first" if i_ == 0 else "#rest"
+                    el = H.peel_ref(it_e["es"][i_])
+                    pairs = []
+                    if lpat is not None and lpat.get("k") == "bind":
+                        pairs = [(lpat, el)]
+                    elif lpat is not None and lpat.get("k") == "tuple" and el.get("k") == "tuple" and len(lpat["subs"]) == len(el.get("es") or []):
+                        pairs = list(zip(lpat["subs"], el["es"]))
+                    for p_, v_ in pairs:
+                        v_ = H.peel_ref(v_)
+                        if p_.get("k") == "bind" and p_.get("name") not in self.assigned:
+                            if v_.get("k") == "lit" and v_["lit"]["t"] == "str":
+                                self.bind[p_["name"]] = v_["lit"]["v"]
+                            else:
+                                self.bind.pop(p_["name"], None)
                     self.loop_ends.append(nxt)
                     self.build(S[1], cur, nxt, fn_end, fname)
                     self.loop_ends.pop()
                     cur = nxt
+                for k_ in list(self.bind):
+                    if k_ != idx and k_ not in saved_b:
+                        del self.bind[k_]
+                for k_, v_ in saved_b.items():
+                    if k_ != idx:
+                        self.bind[k_] = v_
                 if idx:
                     if old is None:
                         self.bind.pop(idx, None)
